@@ -125,6 +125,32 @@ func buildCatalogue() []deviation {
 	add("retyped-time-garbage", false, both, func(m *Model) { m.Set("time", `"yesterday"`, envcodec.Tag(1, envcodec.Tstr("yesterday"))) })
 	add("time-null", false, both, func(m *Model) { m.Set("time", `null`, envcodec.CBORNull) })
 	add("retyped-expiry-number", false, jwsOnly, func(m *Model) { m.Set("expiry", `1922548800`, nil); addCrit(m, envcodec.JExpiry) })
+	// --- look-alike header names (JWS: names that differ from a specification
+	// header only in letter case; Go's struct decoding would take them for it) ------
+	lookalike := func(name string, benignAlone bool, f func(m *Model)) { add(name, false, jwsOnly, f) }
+	lookalike("lookalike-scheme-other-last", false, func(m *Model) {
+		o := "notary.x509.signingAuthority"
+		if m.Scheme == o {
+			o = "notary.x509"
+		}
+		m.JWS = append(m.JWS, envcodec.Member{Name: "io.cncf.notary.SIGNINGSCHEME", Raw: envcodec.JStr(o)})
+	})
+	lookalike("lookalike-time-other-last", false, func(m *Model) {
+		m.JWS = append(m.JWS, envcodec.Member{Name: strings.ToUpper(m.label("time")), Raw: envcodec.JTime(st0.Add(-240 * time.Hour))})
+	})
+	lookalike("lookalike-expiry-last", false, func(m *Model) {
+		m.JWS = append(m.JWS, envcodec.Member{Name: "IO.CNCF.NOTARY.EXPIRY", Raw: envcodec.JTime(st0.AddDate(50, 0, 0))})
+	})
+	lookalike("lookalike-crit-last", false, func(m *Model) {
+		m.JWS = append(m.JWS, envcodec.Member{Name: "Crit", Raw: envcodec.JList([]string{envcodec.JScheme})})
+	})
+	lookalike("lookalike-cty-last", false, func(m *Model) {
+		m.JWS = append(m.JWS, envcodec.Member{Name: "CTY", Raw: envcodec.JStr("text/evil")})
+	})
+	lookalike("lookalike-long-s", false, func(m *Model) {
+		// U+017F folds to 's' under Unicode simple case folding
+		m.JWS = append(m.JWS, envcodec.Member{Name: "io.cncf.notary.\u017figningScheme", Raw: envcodec.JStr("notary.x509.signingAuthority")})
+	})
 	// --- scheme ------------------------------------------------------------------
 	add("scheme-unknown", false, both, func(m *Model) { m.Set("scheme", `"notary.x509.other"`, envcodec.Tstr("notary.x509.other")) })
 	add("scheme-empty", false, both, func(m *Model) { m.Set("scheme", `""`, envcodec.Tstr("")) })
@@ -308,6 +334,8 @@ type indep struct {
 	payload    []byte
 	sig        []byte
 	ownerAttrs []signature.Attribute
+	cty        string
+	ctyOK      bool
 }
 
 func decode(mt string, raw []byte) (*indep, error) {
@@ -328,6 +356,7 @@ func decode(mt string, raw []byte) (*indep, error) {
 			in.labels[m.Name] = true
 		}
 		in.alg, _ = d.HeaderString(envcodec.JAlg)
+		in.cty, in.ctyOK = d.HeaderString(envcodec.JCty)
 		in.chain, in.payload, in.sig = d.Chain, d.Payload, d.Sig
 		return in, nil
 	}
@@ -372,6 +401,7 @@ func decode(mt string, raw []byte) (*indep, error) {
 			in.alg = fmt.Sprintf("cose:%d", id)
 		}
 	}
+	in.cty, in.ctyOK = d.HeaderString(envcodec.CCty)
 	in.chain, in.payload, in.sig = d.Chain, d.Payload, d.Sig
 	return in, nil
 }
@@ -418,9 +448,15 @@ func postconditions(mt string, content *signature.EnvelopeContent, in *indep) []
 	if si.SignedAttributes.SigningTime.IsZero() {
 		bad("signing-time-zero", "returned signing time is the zero time")
 	}
+	if in.ctyOK && in.cty != content.Payload.ContentType {
+		bad("content-type-source", "returned content type %q, the signed header says %q", content.Payload.ContentType, in.cty)
+	}
 	exp := si.SignedAttributes.Expiry
 	if !exp.IsZero() && !exp.After(si.SignedAttributes.SigningTime) {
 		bad("expiry-not-later", "expiry %v is not strictly later than the signing time %v", exp.UTC(), si.SignedAttributes.SigningTime.UTC())
+	}
+	if _, ok := in.times[envcodec.JExpiry]; !ok && !exp.IsZero() && !in.labels[envcodec.JExpiry] {
+		bad("expiry-source", "an expiry %v was returned but the envelope has no expiry header", exp.UTC())
 	}
 	if et, ok := in.times[envcodec.JExpiry]; ok && !et.Equal(exp) && !(et.IsZero() && exp.IsZero()) {
 		bad("expiry-source", "returned expiry %v, header says %v", exp.UTC(), et.UTC())
